@@ -1,3 +1,10 @@
 package sym
 
 var minusOne = ^uint64(0)
+
+// zeroInitOK lists packages whose init only tunes for CPU features; their globals may stay
+// zero (generic code paths are taken).
+var zeroInitOK = map[string]bool{
+	"internal/bytealg": true,
+	"internal/cpu":     true,
+}
